@@ -45,6 +45,7 @@ def c04(run):
         raise core.ToolError("Matcher emission incomplete: %s" % outs)
     run.sample_file(outs[0])
     run.replay(outs, "Matcher vectors")
+    _consteval_sample(run, "C04-consteval", outs, "Matcher", 600 if run.tier == "quick" else 4000)
     run.record_and_validate("Matcher", "Trace_Matcher", "Trace_Matcher.cfg",
                             n_files=4 if q else 16, n_events=5000 if q else 20000)
     run.assumptions += [BOUNDED, STD_GUARD,
@@ -94,6 +95,57 @@ def replay_file(pid, path, seed):
     return 0
 
 
+def _p8(v):
+    v = int(v)
+    if v <= 60:
+        return v
+    if v <= 127:
+        return (2**63 - 1) - (127 - v)
+    if v <= 190:
+        return 2**63 + (v - 128)
+    return (2**64 - 1) - (255 - v)
+
+
+def _consteval_sample(run, label, paths, kind, cap):
+    """A seeded sample of emitted vectors re-expressed as const items: rustc's const evaluator executes the real
+    const fn (it rejects out-of-bounds pointer arithmetic, reads of uninitialised memory and invalid values even when
+    the result is unused, and some slips only show in const context)."""
+    import progs
+    import random
+    import gen_consteval as gc
+    lines = []
+    for pth in paths:
+        lines += open(pth).readlines()
+    random.Random(run.seed).shuffle(lines)
+    ps = progs.ProgSet(run, label)
+    n = 0
+    for l in lines:
+        r = json.loads(l)
+        if kind == "Matcher":
+            c = gc.matcher(r)
+        elif kind == "StripTrim":
+            c = gc.striptrim(r)
+        elif kind == "StrIndex":
+            c = gc.strindex(r, _p8)
+        elif kind == "ParseInt":
+            c = gc.parseint(r)
+        elif kind == "CStr":
+            c = gc.cstr(r) if r.get("m") == "CStr" else None
+        elif kind == "Split":
+            c = gc.split_const(r)
+        elif kind == "Chars":
+            c = gc.chars_const(r)
+        else:
+            c = None
+        for cc in (c if isinstance(c, list) else [c]):
+            if cc is not None:
+                ps.add(cc[0], cc[1], dict(r, mac="const-eval:" + kind))
+                n += 1
+        if n >= cap:
+            break
+    ps.execute()
+
+
 # ------------------------------------------------------------------------------------------- C05
 @check("C05", rule="one case = (operation, input, pattern); non-trivial = pattern non-empty or whitespace op; "
                     "every case is replayed through every pattern kind of the string:: and slice::bytes_* twins")
@@ -105,6 +157,7 @@ def c05(run):
            heap="8g", timeout=3000)
     run.sample_file(out)
     run.replay([out], "StripTrim vectors")
+    _consteval_sample(run, "C05-consteval", [out], "StripTrim", 600 if q else 4000)
     run.record_and_validate("StripTrim", "Trace_StripTrim", "Trace_StripTrim.cfg",
                             n_files=4 if q else 16, n_events=5000 if q else 20000)
     run.assumptions += [BOUNDED, STD_GUARD,
@@ -167,6 +220,7 @@ def c03(run):
            need_actions=("Check", "Unsafe"), heap="8g", timeout=3000)
     run.sample_file(out)
     run.replay([out], "StrIndex vectors")
+    _consteval_sample(run, "C03-consteval", [out], "StrIndex", 600 if q else 4000)
     run.record_and_validate("StrIndex", "Trace_StrIndex", "Trace_StrIndex.cfg",
                             n_files=4 if q else 16, n_events=5000 if q else 20000)
     run.assumptions += [W8, BOUNDED, STD_GUARD]
@@ -291,6 +345,7 @@ def c07(run):
     run.mc("MC_Chars", "Chars.wide.cfg", env={"OUT": out2}, heap="8g", timeout=3000)
     run.sample_file(out)
     run.replay([out, out2], "Chars state graphs")
+    _consteval_sample(run, "C07-consteval", [out, out2], "Chars", 500 if q else 3000)
     run.record_and_validate("Chars", "Trace_Chars", "Trace_Chars.cfg", n_files=4 if q else 16,
                             n_events=4000 if q else 15000)
     # complete sweep of from_u32 / encode_utf8 / decode over every u32 in 0..0x120000 (4608 blocks of 256)
@@ -341,6 +396,7 @@ def c06(run):
     run.mc("MC_Split", "Split.quick.cfg" if q else "Split.thorough.cfg", env={"OUT": out}, heap="8g", timeout=3000)
     run.sample_file(out)
     run.replay([out], "Split state graph")
+    _consteval_sample(run, "C06-consteval", [out], "Split", 500 if q else 3000)
     run.record_and_validate("Split", "Trace_Split", "Trace_Split.cfg", n_files=4 if q else 16,
                             n_events=3000 if q else 12000)
     run.assumptions += [BOUNDED, STD_GUARD,
@@ -360,6 +416,7 @@ def c12(run):
            need_actions=("Sign", "FirstDigit", "DigitStep", "ApplySign"), heap="8g", timeout=3000)
     run.sample_file(out)
     run.replay([out], "ParseInt vectors")
+    _consteval_sample(run, "C12-consteval", [out], "ParseInt", 500 if q else 3000)
     run.record_and_validate("ParseInt", "Trace_ParseInt", "Trace_ParseInt.cfg", n_files=4 if q else 16,
                             n_events=4000 if q else 15000)
     run.assumptions += [BOUNDED, STD_GUARD, "numbers are decimal digit sequences in the specification (exact for "
@@ -436,6 +493,7 @@ def c20(run):
     run.sample_file(out1, k=2)
     run.sample_file(out2, k=2)
     run.replay([out1, out1 + ".utf8"], "CStr and from_utf8 vectors")
+    _consteval_sample(run, "C20-consteval-cstr", [out1], "CStr", 300 if q else 2000)
     run.record_and_validate("CStr", "Trace_CStr", "Trace_CStr.cfg", n_files=2 if q else 8, n_events=3000 if q else 10000)
     _concat_cases(run, out2, "C20-concat").execute()
     run.exhaustive = False
@@ -977,7 +1035,8 @@ def c01(run):
         if v <= 190:
             return 2**63 + (v - 128)
         return (2**64 - 1) - (255 - v)
-    budget = {"Matcher": 400, "StripTrim": 400, "StrIndex": 400, "SliceIndex": 400, "CStr": 150, "ParseInt": 300}
+    budget = {"Matcher": 400, "StripTrim": 400, "StrIndex": 400, "SliceIndex": 400, "CStr": 150, "ParseInt": 300,
+              "Split": 300, "Chars": 300}
     for name, cap in budget.items():
         lines = open(files[name]).readlines()
         rnd.shuffle(lines)
@@ -994,6 +1053,10 @@ def c01(run):
                 c = [gc.sliceindex(r, p8), gc.sliceindex_mut(r, p8, "u64"), gc.sliceindex_mut(r, p8, "u8")]
             elif name == "ParseInt":
                 c = gc.parseint(r)
+            elif name == "Split":
+                c = gc.split_const(r)
+            elif name == "Chars":
+                c = gc.chars_const(r)
             else:
                 c = gc.cstr(r)
             for cc in (c if isinstance(c, list) else [c]):
